@@ -164,6 +164,35 @@ CLAIMED = {
         design="§4 C13", technique="Coq proof (pipeline = spec encoder; fold over the sample stream; exact-arithmetic FIR) + process-level and in-process differential",
         note=PROOF_NOTE + "  libcodec2 is an arbitrary function (Section variable); the double rounding of the FIR is compared within +-1 LSB, not verified; the "
              "never-ending BERT mode is checked frame by frame only."),
+    "C14": dict(
+        text="Machine-checked proof (Coq) over an event-schedule model of M17Modulator: for every schedule of samples/timeouts/ptt_on/ptt_off "
+             "(any interleaving the API allows, repeated key-ups, 0..N frames per key-up), every Codec2 oracle and all callsigns, the bytes put are per "
+             "key-up the 48-byte preamble, the specification's LSF frame (DST, SRC, TYPE 0x0005, valid CRC) and stream frames numbered 0.. with LICH k mod 6 "
+             "and EOS on the last only, each bit-identical to the specification's encoding (SpecM17.v) - the packed-byte pipeline equals the bit-level spec; "
+             "the machine returns to IDLE; with a blocking put (named hypothesis = C16's forever_never_times_out, tied to the queue.h text) every "
+             "interleaving with a consumer of arbitrary speed delivers exactly the bytes put, and the hypothesis is shown necessary.  Tie: the real class "
+             "run with real threads (scripted and racy schedules, slow consumers) against the extracted model and the self-consistency oracle.",
+        design="§4 C14", technique="Coq proof (state machine over event schedules; byte pipeline = bit-level spec; bounded-FIFO abstraction) + real-thread differential",
+        note=PROOF_NOTE + "  Wall-clock effects (the 40 ms warning, the 5 s get timeout under load) are covered as possibilities by the Timeout event, not timed; "
+             "libcodec2 is an arbitrary function; threads/atomics and the real queue are outside this model (see C15/C16)."),
+    "C05": dict(
+        text="Machine-checked proof (Coq) about the mirror of M17FrameDecoder instantiated with the mirrors of the real stages: from EVERY decoder state "
+             "(mode, collected fragments, any buffer contents), for EVERY frame under any sync type and along every history, each LSF handed to the callback "
+             "passes the M17 CRC (= the specification's CRC, C09); Golay words with <= 3 errors each (parity bit included) unpack to exactly the 48 LICH "
+             "bits (nibble packing proved for all contents, uses C04); fragment numbers 6/7 change nothing collected, 0..5 fill exactly their slot and bit; "
+             "when, counting the arriving fragment, all six slots hold the chunks of one CRC-valid LSF it is reported bit-exact, OK, stream mode entered.  "
+             "Tie: histories of LSF/stream frames (two interleaved LSFs, repeats, <=3-error words, numbers 6/7, 4-error words, flips, random frames) on the "
+             "real decoder vs the extracted model, plus the ghost-state oracle.",
+        design="§4 C05, §12.2", technique="Coq proof (case analysis of the decoder step; slot/bitmap arithmetic; Golay and CRC theorems reused) + extracted-model differential"),
+    "C08": dict(
+        text="Machine-checked proof (Coq): (1) no hidden state - two decoders in the same (mode, LICH bitmap, LSF buffer) give the same observation (mode, "
+             "return code, viterbi_cost, callbacks) for the same frame and every later history, whatever their de-puncture/decode/output buffers and Viterbi "
+             "scratch contain (uses C11 depuncture_defines_all and C02 scratch independence); (2) refinement - for every history from every state the "
+             "observations are exactly those of the documented state machine (SpecFrames.sm_step, no buffers) whose payload decoder is the erasure-marking "
+             "maximum-likelihood decoder (C02); (3) the state machine's transitions are the documented ones (LSF sync restarts, BERT sync always decodes, "
+             "invalid sync types fall back to link setup and fail, packet EOF, TYPE dispatch).  Tie: all sequences up to length 3 (4 thorough) over 14 frame "
+             "kinds + long random histories on fresh and pre-dirtied real decoders vs the extracted model and the state-machine oracle.",
+        design="§4 C08, §12.2", technique="Coq proof (bisimulation up to hidden buffers; refinement to a buffer-free state machine) + extracted-model differential incl. pre-dirtied decoders"),
 }
 
 NOT_YET = {}
